@@ -69,21 +69,28 @@ func c20Run(w *W, removals bool) {
 	}
 	endMode := simrt.Choose(2) // 0 close, 1 cancel
 	w.Config("%s iters=%d prefill=%d adds=%d removals=%d end=%s", v.name, nIters, prefill, nAdd, nRem, []string{"close", "cancel"}[endMode])
-	var added []int
+	var added []int // successfully added, in container order (one adder at a time)
 	add := func(x int) {
+		var err error
 		switch {
 		case !useDeque:
-			_ = q.Add(x)
+			err = q.Add(x)
 		case v.reverse:
-			_ = dq.PushFront(x)
+			err = dq.PushFront(x)
 		default:
-			_ = dq.PushBack(x)
+			err = dq.PushBack(x)
+		}
+		if err == nil {
+			added = append(added, x)
 		}
 	}
 	for i := 0; i < prefill; i++ {
-		added = append(added, 100+i)
 		add(100 + i)
 	}
+	// Close may also race the adds (and the parked iterators' wake-ups): every
+	// item whose add succeeded must still be yielded before io.EOF
+	raceClose := !removals && endMode == 0 && simrt.Choose(3) == 0
+	closeAt := simrt.Choose(80)
 	var its []*iterRec
 	for i := 0; i < nIters; i++ {
 		r := &iterRec{kind: v.name, blocking: v.blocking}
@@ -104,10 +111,18 @@ func c20Run(w *W, removals bool) {
 			r.state = 2
 		})
 	}
+	if raceClose {
+		simrt.Spawn("fault:close", func() {
+			simrt.WaitStep(closeAt)
+			if useDeque {
+				_ = dq.Close()
+			} else {
+				_ = q.Close()
+			}
+		})
+		w.Fault("close-racing-adds")
+	}
 	if nAdd > 0 {
-		for i := 0; i < nAdd; i++ {
-			added = append(added, 200+i)
-		}
 		simrt.Spawn("adder", func() {
 			for i := 0; i < nAdd; i++ {
 				add(200 + i)
@@ -174,7 +189,6 @@ func c20Run(w *W, removals bool) {
 			for i, r := range its {
 				before[i] = unseen(r)
 			}
-			added = append(added, 900)
 			add(900)
 			simrt.Quiesce()
 			for i, r := range its {
@@ -229,7 +243,7 @@ func c20Run(w *W, removals bool) {
 			}
 		}
 	}
-	checkSeq("quiescence-1", false)
+	checkSeq("quiescence-1", raceClose)
 	for _, r := range its {
 		if !r.blocking && r.state != 2 {
 			w.Violate("non-blocking-iterator-blocked", "non-blocking-iterator-blocked:"+v.name, "non-blocking iterator still running at quiescence (%s)", simrt.SiteOf(r.task))
@@ -247,7 +261,9 @@ func c20Run(w *W, removals bool) {
 		} else {
 			_ = q.Close()
 		}
-		w.Fault("close")
+		if !raceClose {
+			w.Fault("close")
+		}
 	} else {
 		for _, r := range its {
 			r.canceled = true
